@@ -69,20 +69,20 @@ var heavyHarness = map[string]int{
 	"H_C01_rhs": 1, "H_C01_chain2": 2,
 	"H_C03_escapes": 1, "H_C03_funcs": 2,
 	"H_C06_generated": 1, "H_C06_pure": 2,
-	"H_C14_extremes": 1,
+	"H_C14_extremes":  1,
 	"H_C10_selectors": 1,
-	"H_C12_string": 1,
-	"H_C15_strict": 1, "H_C15_unordered": 1,
+	"H_C12_string":    1,
+	"H_C15_strict":    1, "H_C15_unordered": 1,
 }
 
 type KnownFinding struct {
 	Property   string          `json:"property"`
 	Properties []string        `json:"properties,omitempty"`
-	ID       string          `json:"id"`
-	Status   string          `json:"status"`
-	What     string          `json:"what"`
-	Witness  json.RawMessage `json:"witness,omitempty"`
-	Commit   string          `json:"commit,omitempty"`
+	ID         string          `json:"id"`
+	Status     string          `json:"status"`
+	What       string          `json:"what"`
+	Witness    json.RawMessage `json:"witness,omitempty"`
+	Commit     string          `json:"commit,omitempty"`
 }
 
 type KnownFile struct {
